@@ -178,6 +178,7 @@ func gRow(r *RNG) growT {
 type ggen struct {
 	r      *RNG
 	tricky bool // integer literals / the int column where two values are compared with reflect.DeepEqual
+	tv     int  // the value a tricky row holds in a (int), b (float64) and arr (float64 element)
 }
 
 func (g *ggen) pick(xs ...string) string { return xs[g.r.Intn(len(xs))] }
@@ -239,7 +240,7 @@ func (g *ggen) arrArg(d int) *ex {
 func (g *ggen) elemArg(d int) *ex {
 	if g.tricky {
 		if g.r.Bool() {
-			return g.intLit(0, 4)
+			return num(int64(g.tv), 1)
 		}
 		return col("a")
 	}
@@ -410,7 +411,10 @@ func (g *ggen) boolCall(d int) *ex {
 }
 func (g *ggen) nullIf(d int) *ex {
 	if g.tricky {
-		return c06Call("null_if", col(g.pick("a", "b")), g.pick2(g.intLit(0, 4), col("a")))
+		if g.r.Bool() {
+			return c06Call("null_if", col("b"), g.pick2(num(int64(g.tv), 1), col("a")))
+		}
+		return c06Call("null_if", col("a"), num(int64(g.tv), 1))
 	}
 	switch g.r.Intn(4) {
 	case 0:
@@ -492,7 +496,7 @@ func c06Funcs(tier string, r *RNG, o *Out) {
 		n = 6000
 	}
 	for i := 0; i < n; i++ {
-		g := &ggen{r: r, tricky: i%25 == 24}
+		g := &ggen{r: r, tricky: i%25 == 24, tv: r.Intn(5)}
 		depth := 0
 		if i%3 == 1 {
 			depth = 1 + r.Intn(2)
@@ -527,6 +531,16 @@ func c06Funcs(tier string, r *RNG, o *Out) {
 		fname := c.s
 		for k := 0; k < 2; k++ {
 			row := gRow(r)
+			if g.tricky {
+				row["a"] = gcell{c: cell{kind: "i", i: int64(g.tv)}}
+				row["b"] = gcell{c: cell{kind: "f", f: float64(g.tv)}}
+				arr := gArray(r)
+				arr.arr = append(arr.arr, cell{kind: "f", f: float64(g.tv)})
+				if k == 1 {
+					arr.arr = append([]cell{{kind: "s", s: "x"}}, arr.arr...)
+				}
+				row["arr"] = arr
+			}
 			m := row.goMap()
 			hand := guard(func() string {
 				e, err := expr.NewExpression(text)
